@@ -280,7 +280,7 @@ inline const std::vector<std::string>& allFeatures() {
         "lre", "message", "modes", "sort2", "comment-pi", "exslt-set", "exslt-math", "exslt-str", "genid", "lang", "sysprop", "param", "ifbool",
         "union", "preds", "valnum", "apply-imports", "text-nodes", "ns-axis", "doctype-node", "attr-nodes", "number-value", "bigfmt", "xalan-ext", "docfn", "avt-ns", "extfn", "paramuse", "gate", "num-gate", "sortlang", "num-value", "lazyvar", "manyrtf", "deeprec", "padsupp", "top-nodes", "doe", "sort-gate", "bignum-alpha",
         "num-punct", "num-exotic", "ext-evaluate", "rtf-key", "key-prefixed", "key-variant",
-        "nsalias", "withparam", "fmtnum-pat", "doc2", "unparsed-entity", "nsfix", "numconv", "keynodeset", "randexpr"
+        "nsalias", "withparam", "fmtnum-pat", "doc2", "unparsed-entity", "nsfix", "numconv", "keynodeset", "randexpr", "manydf"
     };
     return f;
 }
@@ -336,7 +336,7 @@ struct SSGen {
         if (on("avt-ns")) perNode += "<o f=\"avt-ns\" n=\"{@id}\"><xsl:element name=\"px:e\" namespace=\"{concat('urn:x-dyn-', namespace-uri())}\"/><xsl:element name=\"{name()}\"/></o>";
         if (on("message")) perNode += "<xsl:if test=\"@v = 7\"><xsl:message>note <xsl:value-of select=\"@id\"/></xsl:message></xsl:if>";
         if (on("sort2")) perNode += "<o f=\"sort2\" n=\"{@id}\"><xsl:for-each select=\"*\"><xsl:sort select=\"@k\" order=\"descending\"/><xsl:sort select=\"@v\" data-type=\"number\"/><xsl:value-of select=\"@id\"/>,</xsl:for-each>|<xsl:for-each select=\"*\"><xsl:sort select=\"name()\" case-order=\"upper-first\" lang=\"en\"/><xsl:value-of select=\"@id\"/>,</xsl:for-each></o>";
-        if (on("comment-pi")) perNode += "<o f=\"comment-pi\" n=\"{@id}\"><xsl:comment>c <xsl:value-of select=\"@id\"/></xsl:comment><xsl:processing-instruction name=\"tgt\">d <xsl:value-of select=\"@k\"/></xsl:processing-instruction></o>";
+        if (on("comment-pi")) perNode += "<o f=\"comment-pi\" n=\"{@id}\"><xsl:comment>c <xsl:value-of select=\"@id\"/></xsl:comment><xsl:processing-instruction name=\"tgt\">d <xsl:value-of select=\"@k\"/></xsl:processing-instruction><m>pre<xsl:value-of select=\"@k\"/><xsl:comment>in</xsl:comment>mid<xsl:processing-instruction name=\"tgt2\">e</xsl:processing-instruction>post<i/>tail<xsl:comment/></m></o>";
         if (on("exslt-set")) perNode += o("exslt-set", vo("count(set:distinct(*/@k))") + "," + vo("count(set:difference(*, *[@v]))") + "," + vo("count(set:intersection(*, *[@k]))") + "," + vo("set:has-same-node(*, *[1])") + "," + vo("count(set:leading(*, *[3]))") + "," + vo("count(set:trailing(*, *[2]))"));
         if (on("exslt-math")) perNode += o("exslt-math", vo("math:max(*/@v)") + "," + vo("math:min(*/@v)") + "," + vo("count(math:highest(*/@v))") + "," + vo("math:abs(@v)") + "," + vo("math:sqrt(16)") + "," + vo("math:power(2, 10)"));
         if (on("exslt-str")) perNode += o("exslt-str", vo("str:padding(5, 'ab')") + "," + vo("str:align(@id, '--------', 'right')") + "," + vo("str:concat(*/@k)") + "," + vo("str:encode-uri(concat(@k, ' /x'), false())"));
@@ -391,6 +391,9 @@ struct SSGen {
             for (int i = 0; i < 4; ++i) { auto e = eg.make(3); std::string show = e.second == 'N' ? "<xsl:value-of select=\"count(" + e.first + ")\"/>:<xsl:for-each select=\"(" + e.first + ")[position() &lt; 6]\"><xsl:value-of select=\"concat(name(), '=', @id, ' ')\"/></xsl:for-each>" : vo("string(" + e.first + ")");
                 body += "{" + show + "}"; if (i < 2) rootb += "{" + show + "}"; }
             perNode += "<xsl:if test=\"count(preceding::*) mod 4 = 0\">" + o("randexpr", body) + "</xsl:if>"; rootBody += "<o f=\"randexpr\" n=\"/\">" + rootb + "</o>"; }
+        // more named decimal formats with different symbols than the formatter cache holds (10)
+        if (on("manydf")) { std::string uses; static const char* const seps = ",:!_~^`|@$?="; for (int i = 0; i < 12; ++i) { std::string n = "mdf" + std::to_string(i); top += "<xsl:decimal-format name=\"" + n + "\" decimal-separator=\"" + std::string(1, seps[i]) + "\" grouping-separator=\"" + std::string(1, seps[(i + 5) % 12]) + "\"/>"; uses += vo("format-number(@v * 1000.5 + " + std::to_string(i) + ", '#" + std::string(1, seps[(i + 5) % 12]) + "##0" + std::string(1, seps[i]) + "0', '" + n + "')") + " "; }
+            perNode += "<xsl:if test=\"count(preceding::*) mod 3 = 0\">" + o("manydf", uses) + "</xsl:if>"; }
         // many result tree fragments alive at the same time (arena blocks of the fragment allocators hold 10)
         if (on("manyrtf")) { std::string vars, uses; for (int i = 0; i < 13; ++i) { std::string n = "mr" + std::to_string(i); vars += "<xsl:variable name=\"" + n + "\"><r" + std::to_string(i) + "><xsl:value-of select=\"@id\"/></r" + std::to_string(i) + ">t" + std::to_string(i) + "</xsl:variable>"; uses += "<xsl:value-of select=\"string-length($" + n + ")\"/>,"; }
             perNode += "<xsl:if test=\"count(preceding::*) mod 4 = 0\">" + vars + "<o f=\"manyrtf\" n=\"{@id}\">" + uses + "<xsl:copy-of select=\"$mr12\"/></o></xsl:if>"; }
